@@ -75,6 +75,28 @@ pub fn temp_root_survives(gc_before: u8) -> bool {
   st.obj_len == 1 && a.value == Value::from(1.0) && gc.temp_roots() == 0
 }
 
+/// O-05.5 the object being allocated is rooted for the collection its own allocation triggers (threshold path of
+/// Allocator::allocate_obj / allocate): a first collection of an empty heap leaves next_gc == 0, so the next allocation collects.
+pub fn inflight_obj_survives() -> bool {
+  let mut gc = ManuallyDrop::new(Allocator::default());
+  let none = Roots::<1> { boxes: [None], strs: [None] };
+  gc.collect_garbage(&none);
+  let armed = gc.verif_stats().next_gc == 0;
+  let a = gc.manage_obj(LyBox::new(Value::from(1.0)), &none);      // collects inside allocate_obj; `a` is reachable from nothing else
+  let st = gc.verif_stats();
+  armed && st.gc_count == 2 && st.obj_len + st.nursery_obj_len == 1 && a.value == Value::from(1.0)
+}
+pub fn inflight_alloc_survives() -> bool {
+  use laythe_core::object::ChannelWaiter;
+  let mut gc = ManuallyDrop::new(Allocator::default());
+  let none = Roots::<1> { boxes: [None], strs: [None] };
+  gc.collect_garbage(&none);
+  let armed = gc.verif_stats().next_gc == 0;
+  let w: laythe_core::Ref<ChannelWaiter> = gc.manage(ChannelWaiter::new(true), &none);   // collects inside allocate
+  let st = gc.verif_stats();
+  armed && st.gc_count == 2 && st.heap_len == 1 && w.is_runnable()
+}
+
 // ---- C09: the intern table ----
 fn same_obj(a: LyStr, b: LyStr) -> bool { std::ptr::eq(&*a as *const str as *const u8, &*b as *const str as *const u8) }
 
@@ -198,4 +220,16 @@ mod proofs {
   #[kani::stub(<ObjectHandle as std::ops::Drop>::drop, drop_stub)]
   #[kani::stub(<laythe_core::ObjectRef as Trace>::trace, no_children)]
   fn o05_4_temp_root_survives() { assert!(temp_root_survives(9)); }
+
+  #[kani::proof]
+  #[kani::unwind(4)]
+  #[kani::stub(<ObjectHandle as std::ops::Drop>::drop, drop_stub)]
+  #[kani::stub(<laythe_core::ObjectRef as Trace>::trace, no_children)]
+  fn o05_5_inflight_obj_survives() { assert!(inflight_obj_survives()); }
+
+  #[kani::proof]
+  #[kani::unwind(4)]
+  #[kani::stub(<ObjectHandle as std::ops::Drop>::drop, drop_stub)]
+  #[kani::stub(<laythe_core::ObjectRef as Trace>::trace, no_children)]
+  fn o05_5_inflight_alloc_survives() { assert!(inflight_alloc_survives()); }
 }
